@@ -67,13 +67,16 @@ MsP2Bad   == [MsGood EXCEPT !["p2"] = "bad"]
 MsOnlyP1  == [p \in Peers |-> IF p = "p1" THEN "v1" ELSE "bad"]
 MsSet     == {MsGood, MsP2Bad, MsOnlyP1}
 Defaults  == {<<0 - 1, 0 - 1>>, <<1, 2>>, <<2, 3>>}
-EnvOf(fo, d, st, m, bk) == [follower |-> fo, dmin |-> d[1], dmax |-> d[2], strat |-> st, ms |-> m, paths |-> AllPaths, blocks |-> bk]
-MainEnvs == {EnvOf(FALSE, d, "asc", MsGood, AllBlocks) : d \in Defaults}
-            \cup T({}, {EnvOf(FALSE, <<2, 3>>, "asc", MsP2Bad, AllBlocks)})
+EnvOf(fo, d, st, m, fl) == [follower |-> fo, dmin |-> d[1], dmax |-> d[2], strat |-> st, ms |-> m, paths |-> AllPaths,
+                            blocks |-> AllBlocks, fail |-> fl]
+FailSet == {<<>>, <<"d1">>, <<"s1">>, <<"s2", "d1">>}
+MainEnvs == {EnvOf(FALSE, d, "asc", MsGood, <<>>) : d \in Defaults}
+            \cup T({}, {EnvOf(FALSE, <<2, 3>>, "asc", MsP2Bad, <<>>)})
 
-SideEnvs == {EnvOf(TRUE, <<1, 2>>, "asc", MsGood, AllBlocks), EnvOf(FALSE, <<1, 2>>, "desc", MsGood, <<>>),
-             EnvOf(FALSE, <<1, 2>>, "asc", MsP2Bad, AllBlocks),
-             EnvOf(FALSE, <<2, 3>>, "asc", MsOnlyP1, AllBlocks)}
+SideEnvs == {EnvOf(TRUE, <<1, 2>>, "asc", MsGood, <<>>), EnvOf(FALSE, <<1, 2>>, "desc", MsGood, <<"d1">>),
+             EnvOf(FALSE, <<1, 2>>, "asc", MsP2Bad, <<>>),
+             EnvOf(FALSE, <<2, 3>>, "asc", MsOnlyP1, <<>>), EnvOf(FALSE, <<1, 2>>, "asc", MsGood, <<"s1">>),
+             EnvOf(FALSE, <<2, 3>>, "asc", MsGood, <<"s2", "d1">>)}
 Envs == MainEnvs \cup SideEnvs
 
 \* ---- calls ----
